@@ -415,6 +415,11 @@ pub fn oracle_c09_c10(op: &str, outs: &[String], check_c09: bool, check_c10: boo
             if dr_idx.is_none() {
                 return format!("FAIL:tx-with-undefined-datarate-sf{}-bw{}", tx.rf.sf, tx.rf.bw);
             }
+            // builder J: a JoinRequest of a dynamic plan goes out on one of RP002's default channels of
+            // the region (independent table, judged without a snapshot)
+            if is_join && !fixed && !crate::oracle::default_join_freqs(region).contains(&tx.rf.freq) {
+                return format!("FAIL:join-on-frequency-{}-which-is-no-default-channel-of-{}", tx.rf.freq, region);
+            }
             // power
             let mut limit = (max_power).min(max_eirp_dev(region) - gain);
             if !is_join {
@@ -484,6 +489,7 @@ pub fn oracle_c09_c10(op: &str, outs: &[String], check_c09: bool, check_c10: boo
                                 if ix >= num_default_channels(region) {
                                     return format!("FAIL:join-on-non-join-channel-{}", ix);
                                 }
+
                             } else if fallback {
                                 let ok = s.chans.iter().take(num_default_channels(region)).any(|c| c.as_ref().map(|c| c.freq) == Some(tx.rf.freq));
                                 if !ok {
